@@ -9,6 +9,10 @@
                         or  id 1 version changeset lat lon  (annotated; lat/lon in 1e-7 degree)
    2 REL   : tags | observed (0 false, 1 true, 2 panic)
    4 FIND  : tags | key | observed string (Tags.Find)
+   5 TAGS  : tags | key | HasTag | FindTag: present, key, value | Map()[key]: present, value
+             | AnyInteresting
+   6 UNINT : the keys of UninterestingTags mapped to true at run time
+             (judgement 1: the same set as the one re-read from tag.go by the translator)
    3 TABLE : the three condition names at run time (all, whitelist, blacklist)
              | run-time table after init: list of (key, condition, list of values)
              | the harness's own copy of the published table: list of (key, 0 all/1 white/2 black, values)
@@ -22,7 +26,7 @@
           3 = TABLE: the harness's copy of the published table differs from Spec.SpecTable
           0 = case does not parse. *)
 From Coq Require Import ZArith String Ascii List Bool Arith.
-From Verif Require Import Base.Wire C18.Model C18.Spec C18.Equiv.
+From Verif Require Import Base.Wire C18.Model C18.Spec C18.Equiv C18.Tags.
 From VerifGen Require Import GenPolygon.
 Import ListNotations.
 Open Scope Z_scope.
@@ -93,6 +97,44 @@ Definition check_find : P (list Z) :=
   let j2 := if nodupb (keys ts) then String.eqb (lookup ts k) obs else true in
   ret (code_if j1 1 ++ code_if j2 2)%list.
 
+(* ---- TAGS: the other helpers of tag.go ---- *)
+Definition otag_eqb (a b : option tag) : bool :=
+  match a, b with
+  | None, None => true
+  | Some x, Some y => String.eqb (fst x) (fst y) && String.eqb (snd x) (snd y)
+  | _, _ => false
+  end.
+Definition ostr_eqb (a b : option string) : bool :=
+  match a, b with
+  | None, None => true
+  | Some x, Some y => String.eqb x y
+  | _, _ => false
+  end.
+
+Definition check_tagsops : P (list Z) :=
+  ts <- ptags ;; k <- ppacked ;; has <- pbool ;;
+  ftp <- pbool ;; ftk <- ppacked ;; ftv <- ppacked ;;
+  mp <- pbool ;; mv <- ppacked ;; ai <- pbool ;;
+  let oft := if ftp then Some (ftk, ftv) else None in
+  let omv := if mp then Some mv else None in
+  let j1 :=
+    Bool.eqb (has_tag k ts) has && otag_eqb (find_tag k ts) oft && ostr_eqb (tags_map ts k) omv
+    && Bool.eqb (any_interesting_now ts) ai in
+  (* oracle on tag sets, by membership only *)
+  let present := listed k (keys ts) in
+  let j2 :=
+    if nodupb (keys ts) then
+      Bool.eqb has present
+      && otag_eqb oft (if present then Some (k, lookup ts k) else None)
+      && ostr_eqb omv (if present then Some (lookup ts k) else None)
+      && Bool.eqb ai (existsb (fun t => negb (listed (fst t) uninteresting_tags)) ts)
+    else true in
+  ret (code_if j1 1 ++ code_if j2 2)%list.
+
+Definition check_unint : P (list Z) :=
+  l <- plist ppacked ;;
+  ret (code_if (subsetb l uninteresting_tags && subsetb uninteresting_tags l) 1).
+
 (* ---- TABLE ---- *)
 Definition prt_rule : P rule :=
   k <- ppacked ;; c <- ppacked ;; vs <- plist ppacked ;; ret (mkRule k (decode_cond c) vs).
@@ -118,6 +160,8 @@ Definition check_case (t : toks) : list Z :=
                else if tag =? 4 then check_rel
                else if tag =? 6 then check_table
                else if tag =? 8 then check_find
+               else if tag =? 10 then check_tagsops
+               else if tag =? 12 then check_unint
                else pfail in
       match parse_all p rest with Some codes => codes | None => [0] end
   | [] => [0]
